@@ -1636,6 +1636,9 @@ func (b *Bitmap) unmarshalPilosaRoaring(data []byte) error {
 
 	headerSize := headerBaseSize
 	b.Containers.ResetN(int(keyN))
+	if uint64(len(data)) < uint64(headerSize)+uint64(keyN)*16 {
+		return fmt.Errorf("insufficient data for header + offsets: want %d bytes, got %d", uint64(headerSize)+uint64(keyN)*16, len(data))
+	}
 	// Descriptive header section: Read container keys and cardinalities.
 	for i, buf := 0, data[headerSize:]; i < int(keyN); i, buf = i+1, buf[12:] {
 		b.Containers.PutContainerValues(
@@ -1661,6 +1664,24 @@ func (b *Bitmap) unmarshalPilosaRoaring(data []byte) error {
 		// this shouldn't happen, since we don't normally store nils.
 		if c == nil {
 			continue
+		}
+		// the container's data must lie inside the input
+		need := 0
+		switch c.typ() {
+		case containerRun:
+			if int(offset)+runCountHeaderSize > len(data) {
+				return fmt.Errorf("run count out of bounds: off=%d, len=%d", offset, len(data))
+			}
+			need = runCountHeaderSize + int(binary.LittleEndian.Uint16(data[offset:offset+runCountHeaderSize]))*interval16Size
+		case containerArray:
+			need = int(c.N()) * 2
+		case containerBitmap:
+			need = bitmapN * 8
+		default:
+			return fmt.Errorf("unknown container type %d", c.typ())
+		}
+		if int(offset)+need > len(data) {
+			return fmt.Errorf("container data out of bounds: off=%d, size=%d, len=%d", offset, need, len(data))
 		}
 		switch c.typ() {
 		case containerRun:
@@ -5197,6 +5218,9 @@ func (b *Bitmap) UnmarshalBinary(data []byte) error {
 	}
 	statsHit("Bitmap/UnmarshalBinary")
 	b.opN = 0 // reset opN since we're reading new data.
+	if len(data) < 2 {
+		return errors.New("data too small")
+	}
 	fileMagic := uint32(binary.LittleEndian.Uint16(data[0:2]))
 	if fileMagic == MagicNumber { // if pilosa roaring
 		return errors.Wrap(b.unmarshalPilosaRoaring(data), "unmarshaling as pilosa roaring")
